@@ -121,7 +121,7 @@ func genGrpc(g *genCtx, lean string, facts map[string]interface{}) error {
 			s0 := nodeSrc(g, fd.Body.List[0])
 			s1 := nodeSrc(g, fd.Body.List[1])
 			s2 := nodeSrc(g, fd.Body.List[2])
-			ok = strings.Contains(s0, "wg.Add(1)") && strings.HasPrefix(s1, "defer") && strings.Contains(s1, "wg.Done()") &&
+			ok = strings.Contains(s0, "s.begin()") && strings.Contains(s0, "return err") && strings.HasPrefix(s1, "defer") && strings.Contains(s1, "wg.Done()") &&
 				strings.Contains(s2, "isDone()") && strings.Contains(s2, "return err")
 		}
 		if fd == nil {
@@ -191,7 +191,7 @@ func genGrpc(g *genCtx, lean string, facts map[string]interface{}) error {
 	fmt.Fprintf(&sb, "/-- `timeoutUnit`: (unit byte, nanoseconds) for every byte with a non-zero unit. -/\ndef timeoutUnits : List (Nat × Int) := [%s]\n\n", strings.Join(units, ", "))
 	fmt.Fprintf(&sb, "/-- `decodeTimeout`: rejects `len < %d` and `len > %d`. -/\ndef timeoutMinLen : Nat := %d\ndef timeoutMaxLen : Nat := %d\n\n", minLen, maxLen, minLen, maxLen)
 	fmt.Fprintf(&sb, "/-- whether the number parser of `decodeTimeout` accepts a leading sign. -/\ndef timeoutAcceptsSign : Bool := %v\n\n", acceptsSign)
-	fmt.Fprintf(&sb, "/-- per streamGRPC op: does it start with `wg.Add(1); defer wg.Done(); if err := isDone() …`. -/\ndef grpcOpsFenced : List (String × Bool) := [%s]\n\n", strings.Join(fenced, ", "))
+	fmt.Fprintf(&sb, "/-- per streamGRPC op: does it start with `if err := s.begin() …; defer wg.Done(); if err := isDone() …`. -/\ndef grpcOpsFenced : List (String × Bool) := [%s]\n\n", strings.Join(fenced, ", "))
 	fmt.Fprintf(&sb, "/-- case list of `isReservedHeader`. -/\ndef reservedHeaders : List (List UInt8) :=\n  %s\n\n", leanBytesList(reserved))
 	fmt.Fprintf(&sb, "/-- case list of `isWhitelistedHeader`. -/\ndef whitelistedHeaders : List (List UInt8) :=\n  %s\n\n", leanBytesList(whitelisted))
 	fmt.Fprintf(&sb, "/-- `decodeBinHeader`: the `len(v)%%4 == 0` branch uses the padded decoder. -/\ndef binPaddedWhenMul4 : Bool := %v\n\n", padded)
